@@ -15,6 +15,8 @@ EXTRACT = 'Extract/DelayedObjectsExtract.v'
 ML = 'delayedobjects_model'
 SANITIZE = False
 ENUM = True
+# an uninitialised automatic in the library gets a fixed non-zero pattern instead of whatever is on the stack
+CXXFLAGS = '-ftrivial-auto-var-init=pattern'
 
 GETF, SETC, SETM, FULFILL, ISREC, ISCOMP, FINISHED, FREADY, FGET = range(9)
 LOCKING = (GETF, SETC, SETM, FULFILL, ISREC, ISCOMP, FINISHED)
@@ -88,10 +90,29 @@ def gen(rng, tier, spec):
             else:
                 sl = rng.pick(held[t]) if held[t] and rng.chance(9, 10) else rng.below(nslots)
                 progs[t].append([o, sl])
+    # variant 1 (about one case in eight): X = long.  No const X& setter, no fulfillAllPromises (no copies exist
+    # for a scalar), fewer setters: futures of both key kinds are still pending when the container is destroyed
+    variant = 1 if rng.chance(1, 8) else 0
+    if variant == 1:
+        for t, p in enumerate(progs):
+            for op in p:
+                if op[0] == SETC:
+                    op[0] = SETM
+                if op[0] == FULFILL:
+                    kd, ky = key()
+                    op[:] = [ISCOMP, kd, ky]
+                elif op[0] == SETM and rng.chance(1, 2):
+                    op[:] = [FGET, rng.pick(held[t]) if held[t] else rng.below(nslots)]
+        if len(requested) < 2:
+            t = rng.below(nt)
+            for kk in [kk for kk in ((0, 0), (1, 0)) if kk not in requested][:2]:
+                sl = rng.below(nslots)
+                progs[t].insert(0, [GETF, kk[0], kk[1], sl])
+                requested.append(kk)
     # throw plan (about 15% of the cases): global indices of the copies of X that throw; aimed at the
     # const X& setters and at fulfillAllPromises (one copy per pending promise)
     plan = []
-    if rng.chance(3, 20):
+    if variant == 0 and rng.chance(3, 20):
         for p in progs:
             for op in p:
                 if op[0] == SETM and rng.chance(2, 3):
@@ -132,7 +153,7 @@ def gen(rng, tier, spec):
         sched += R.sched_random(rng, nt, rng.range(0, 30), cw)
     else:
         sched = R.any_sched(rng, nt, 50, cw)
-    return {'cfg': [nslots] + plan, 'progs': progs, 'sched': sched}
+    return {'cfg': [nslots, variant] + plan, 'progs': progs, 'sched': sched}
 
 
 # ----------------------------------------------------------------------------- reference specification
@@ -295,6 +316,8 @@ def mon_fault(case, lines):
     """an exception other than the one thrown by a copy of X (std::future_error: promise_already_satisfied,
     no_state, ...) escaped a library call, or would escape the destructor"""
     for i, t, what, op, obs, exp, sp in _replay(case, lines):
+        if what == 'fault' and obs == 7:
+            return 'thread %d: operation %s touched a promise stored in the container without owning promiseLock (trace line %d)' % (t, op, i)
         if what == 'fault' or (what == 'ret' and obs == RV_FAULT):
             return 'thread %d: an exception escaped operation %s at trace line %d' % (t, op, i)
         if what == 'terminate':
